@@ -133,8 +133,13 @@ to /repo; the later evaluations ran in scratch worktrees through `VERIF_REPO`). 
   `constraints=` (C16), shifted version ids (C19). Each got a generator or an independent oracle; the emodify case
   format gained `refused`, `fn` (one `delete_function` call), `retargets`, `insert_functions`, `empty_sections`
   and the `loop` instruction.
-* After the strengthening all 298 live changes are caught with a failing input; the per-property lists above show each change and
-  both verdicts. What the strengthened checks (and two side remarks of seeding agents, reproduced before anything
+* After the strengthening the whole set of 298 live changes was evaluated again under two seeds: with `VERIF_SEED=0`
+  294 were caught with a failing input and 4 missed (C03/r5m1 = C09/r5m2, C10/r5m2, C11/r2m3), with `VERIF_SEED=1`
+  296 and 2 (C04/r4m3 = C04/r5m3) - all of them changes whose failing input a random generator produced under one
+  seed and not under another. Each got a deterministic share of targeted cases (retarget of a deleted block, an
+  emptied interval in front of an aligned block, empty neighbours, a kept placeholder that carried comments) and was
+  confirmed caught under both seeds. None was caught only as a broken correspondence. The per-property lists above show each change and 
+  every verdict. What the strengthened checks (and two side remarks of seeding agents, reproduced before anything
   was done about them) found on the *unchanged* tree is in `known_findings.json`: the DT_INIT typo in
   `_can_remove_block` (repaired, d4827ab); a label at the end of a patch moved behind the bytes that follow the
   insertion point (repaired in `are_joinable`, efbce7a - the hypothesis `join_moves_no_symbol` needed was exactly
